@@ -264,13 +264,18 @@ def sample(ctx, budget=1.0, hint=None, broken=None):
         cur = complex(r.uniform(-3, 3), r.uniform(-3, 3))
         segs = []
         for i in range(n):
-            segs.append(_rand_seg(spt, r, cur, r.choice([1.0, 3.0]), r.choice(['line', 'quad', 'cubic'])))
+            segs.append(_rand_seg(spt, r, cur, r.choice([1.0, 3.0, 12.0]), r.choice(['line', 'line', 'quad', 'cubic'])))
             cur = segs[-1].end
         path = P.Path(*segs)
         desc = repr(path).replace('\n', ' ')
-        where = r.choice(['far', 'near', 'start', 'joint', 'interior'])
+        where = r.choice(['far', 'near', 'start', 'joint', 'interior', 'beside', 'beside'])
+        kb = r.randrange(n)
+        chord = segs[kb].end - segs[kb].start
+        # 'beside': next to the middle of some (possibly late, possibly long) segment, much closer to it than to the corners
+        # of its bounding box
         z = {'far': complex(50, -70), 'near': segs[0].point(0.3) + 0.01, 'start': segs[0].start,
-             'joint': segs[r.randrange(n)].end, 'interior': segs[r.randrange(n)].point(0.37)}[where]
+             'joint': segs[r.randrange(n)].end, 'interior': segs[r.randrange(n)].point(0.37),
+             'beside': segs[kb].point(r.uniform(0.35, 0.65)) + 1j * chord * r.choice([0.02, -0.02, 0.1, -0.005])}[where]
         n_eval += 1
         nontriv.add(('path', n, where))
         try:
